@@ -15,6 +15,7 @@
 #include <stdexcept>
 #include <string>
 #include <vector>
+#include <limits>
 
 static long g_checks = 0;
 static int g_bad = 0;
@@ -59,6 +60,28 @@ static void same (const V& v, const std::vector<T>& s, const char *what, unsigne
     bool threw = false;
     try { (void) v.at (s.size ()); } catch (const std::out_of_range&) { threw = true; }
     if (! threw) ok = false;
+  }
+  if (ok)
+  {
+    // at (): out_of_range for EVERY index >= size (), through both overloads (indices beyond the range of difference_type included)
+    typedef typename V::size_type ST;
+    const ST mx = std::numeric_limits<ST>::max ();
+    const ST probes[] = { static_cast<ST> (s.size ()), static_cast<ST> (s.size () + 1), static_cast<ST> (mx / 2), static_cast<ST> (mx / 2 + 1),
+                          static_cast<ST> (mx / 2 + 2), static_cast<ST> (mx - s.size ()), static_cast<ST> (mx - 1), mx };
+    V& mv = const_cast<V&> (v);     // the non-const overload (nothing is written)
+    for (ST p : probes)
+    {
+      if (p < s.size ()) continue;
+      bool t1 = false, t2 = false;
+      try { (void) v.at (p); } catch (const std::out_of_range&) { t1 = true; }
+      try { (void) mv.at (p); } catch (const std::out_of_range&) { t2 = true; }
+      if (! t1 || ! t2)
+      {
+        fail (std::string (what) + " (N=" + std::to_string (n) + "): at (" + std::to_string (static_cast<unsigned long long> (p)) + ") with size () = "
+              + std::to_string (s.size ()) + " did not throw std::out_of_range (" + (t1 ? "non-const" : t2 ? "const" : "either") + " overload)");
+        break;
+      }
+    }
   }
   if (! ok)
   {
